@@ -14,6 +14,11 @@
                                                     ranges over `intros(*request_results.values())`
                      intro_uses_intros              `intro` returns an element of `intros(*args)`
                      unsafe_cast_writes_fresh       `unsafe_cast` assigns `.type` only on `y = intro(x)`
+  * `processDependent` — every call, anywhere in `src/spox/_*.py`, of something whose result differs from
+                   one interpreter to the next: `hash()` (strings are salted per process), `id()`, `random.*`,
+                   `uuid.*`, `time.*`, `datetime.*`, `secrets.*`, `os.urandom/getpid`, `tempfile.*`,
+                   `object.__hash__/__repr__`: [file, qualified function, callee]. Must be empty: names and
+                   bytes of a built model may not depend on any of them.
 Anything unreadable degrades to an entry whose obligation fails.
 """
 import ast
@@ -56,6 +61,36 @@ def extract_recursive():
                     rec(ch, stack + [ch.name])
                 else:
                     rec(ch, stack)
+
+        rec(mod, [])
+    return rows
+
+
+PROCESS_DEPENDENT = {"hash", "id", "object.__hash__", "object.__repr__", "os.urandom", "os.getpid", "os.times"}
+PROCESS_DEPENDENT_MODULES = ("random.", "uuid.", "time.", "datetime.", "secrets.", "tempfile.", "np.random.", "numpy.random.")
+
+
+def extract_process_dependent():
+    rows = []
+    for path in sorted((REPO / "src" / "spox").glob("_*.py")):
+        if path.name in ("__init__.py", "_version.py"):
+            continue
+        try:
+            mod = ast.parse(path.read_text())
+        except Exception as e:  # noqa: BLE001
+            rows.append([path.name, "<module>", "<unreadable:" + type(e).__name__ + ">"])
+            continue
+
+        def rec(node, stack):
+            for ch in ast.iter_child_nodes(node):
+                if isinstance(ch, (ast.FunctionDef, ast.AsyncFunctionDef, ast.ClassDef)):
+                    rec(ch, stack + [ch.name])
+                    continue
+                if isinstance(ch, ast.Call):
+                    nm = dotted(ch.func) or ""
+                    if nm in PROCESS_DEPENDENT or nm.startswith(PROCESS_DEPENDENT_MODULES):
+                        rows.append([path.name, ".".join(stack) or "<module>", nm])
+                rec(ch, stack)
 
         rec(mod, [])
     return rows
@@ -121,6 +156,10 @@ def extract_intro_facts():
 def generate() -> dict:
     rec = extract_recursive()
     facts = extract_intro_facts()
+    try:
+        pdep = extract_process_dependent()
+    except Exception as e:  # noqa: BLE001
+        pdep = [["<unreadable>", type(e).__name__, "?"]]
     text = "\n".join([
         HEADER.format(src="src/spox/_*.py", tool="translator/front_facts.py"),
         "namespace Generated.FrontFacts\n",
@@ -128,10 +167,12 @@ def generate() -> dict:
             ["(" + lean_str(a) + ", " + lean_str(b) + ")" for a, b in rec]) + "\n",
         "def introFacts : List (String × Bool) := " + lean_list(
             ["(" + lean_str(k) + ", " + lean_bool(v) + ")" for k, v in facts.items()]) + "\n",
+        "def processDependent : List (String × String × String) := " + lean_list(
+            ["(" + ", ".join(lean_str(x) for x in r) + ")" for r in pdep]) + "\n",
         "end Generated.FrontFacts\n",
     ])
     write_if_changed(GEN / "FrontFacts.lean", text)
-    return {"recursive": rec, "intro_facts": facts}
+    return {"recursive": rec, "intro_facts": facts, "process_dependent": pdep}
 
 
 if __name__ == "__main__":
